@@ -106,9 +106,15 @@ def run(ctx):
                 ok = bits is not None and int(bits) == CONSTS[m]
                 det = "constant bits %s (expected %d)" % (bits, CONSTS[m])
         else:
-            ctx.ob("C20-a", "trait method %s has a known definition" % m, False, key, "f64-method-unknown:" + m,
-                   detail="MomTropFloat::%s is not in the checker's table of definitions" % m)
-            continue
+            # a method the table does not know: accepted when it is the like-named std f64 function applied to *self and the other
+            # parameters in order (the general rule the table entries are instances of)
+            c = only_block_call(b)
+            if c:
+                t = c[1]
+                cal = t["callee"]
+                args_ok = len(t["args"]) == b.arg_count and all(is_self_value(v, a, i + 1) for i, a in enumerate(t["args"]))
+                ok = cal.get("name") == m and cal.get("impl_self") == "f64" and cal.get("crate") in ("std", "core") and args_ok and t["dest"]["l"] == 0
+                det = "calls %s" % cal["path"]
         ok = ok and not loops_or_branches
         ctx.ob("C20-a", "f64::%s is the std function / exact constant" % m, ok, b.path, "f64-method:" + m,
                where=pat.where(b.blocks[0]["term"]) if b.blocks else None, detail=det or "unexpected body shape")
